@@ -119,6 +119,7 @@ func (i *IndexSnapshot) DecRef() (err error) {
 				}
 			}
 		}
+		verifHook("snap.release", i.parent, i.epoch)
 		if i.parent != nil {
 			go i.parent.AddEligibleForRemoval(i.epoch)
 		}
@@ -1065,6 +1066,7 @@ func (is *IndexSnapshot) CloseCopyReader() error {
 			delete(is.parent.copyScheduled, fileName)
 		}
 	}
+	verifHook("copy.close", is.parent, is)
 	is.parent.rootLock.Unlock()
 	// close the index snapshot normally
 	return is.Close()
